@@ -43,7 +43,8 @@ AllDevs == {"alpha_scalar_other_type", "reduce_int_keeps_dtype", "all_any_uint8_
             "any_all_dims_scalar_input", "argmax_none_keepdim_shape", "amax_dim_required", "amax_scalar_dims", "mean_dtype_ignored",
             "mean_dim_none", "prod_dim_scalar_input", "squeeze_dim_non_unit", "reshape_zero_copies", "broadcast_to_minus_one",
             "flatten_zero_size", "narrow_negative_start", "cat_legacy_empty", "chunk_single_not_list", "chunk_count", "split_empty_dim",
-            "roll_onnx_edges", "flip_scalar", "pad_scalar", "arange_mixed_scalars", "batch_norm_half"}
+            "roll_onnx_edges", "flip_scalar", "pad_scalar", "arange_mixed_scalars", "batch_norm_non_f32",
+            "layer_norm_stats_float32", "unflatten_zero_size"}
 NoDevs == {}
 
 -----------------------------------------------------------------------------
@@ -113,6 +114,8 @@ Tup(ts) == [st |-> "tuple", ts |-> ts, vals |-> TRUE]
 TupStruct(ts) == [st |-> "tuple", ts |-> ts, vals |-> FALSE]
 Lst(ts) == [st |-> "list", ts |-> ts, vals |-> TRUE]
 Refused == [st |-> "err", ts |-> <<>>, vals |-> FALSE]
+\* the emitted graph is outside the ONNX operator text (e.g. Reshape with -1 and 0 under allowzero=1): runtimes refuse it or answer anything
+Undefined == [st |-> "undef", ts |-> <<>>, vals |-> FALSE]
 OneOrErr(t) == IF IsErr(t) THEN Refused ELSE One(t)
 LstOrErr(ts) == IF \E i \in 1..Len(ts) : IsErr(ts[i]) THEN Refused ELSE Lst(ts)
 SameRes(x, y) == /\ x.st = y.st /\ Len(x.ts) = Len(y.ts)
@@ -1184,6 +1187,11 @@ LowView(o, a, devs) ==
                   tail == IF e < r - 1 THEN Slice(shp, <<e + 1>>, <<r>>, <<0>>, <<1>>) ELSE Vec("i64", <<>>)
               IN IF IsErr(head) \/ IsErr(tail) THEN Refused
                  ELSE ToRes(Reshape(self, head.data \o <<-1>> \o tail.data, FALSE))  \* Reshape(self, head ++ [-1] ++ tail)
+    [] o = "aten::unflatten.int" ->
+         \* Reshape(self, Shape[:dim] ++ sizes ++ Shape[dim+1:], allowzero=1): -1 next to a 0 is not a valid target
+         LET d == NormDim(P(a, 2).v, r) tgt == SubSeq(sh, 1, d) \o P(a, 3).data \o SubSeq(sh, d + 2, r) IN
+         IF "unflatten_zero_size" \in devs /\ (\E i \in 1..Len(tgt) : tgt[i] = -1) /\ (\E i \in 1..Len(tgt) : tgt[i] = 0) THEN Undefined
+         ELSE Aten(o, a)
     [] OTHER -> Aten(o, a)
 
 (* index family *)
@@ -1253,8 +1261,11 @@ LowCreate(o, a, devs) ==
   ELSE Aten(o, a)
 
 LowNN(o, a, devs) ==
-  \* Div(1.0, Sqrt(running_var + eps)) mixes a FLOAT constant with a half tensor
-  IF o = "aten::_native_batch_norm_legit_no_training" /\ P(a, 1).s = "f16" /\ "batch_norm_half" \in devs THEN Refused
+  \* Div(1.0, Sqrt(running_var + eps)): the python constant becomes FLOAT, the tensor keeps its own float type
+  IF o = "aten::_native_batch_norm_legit_no_training" /\ P(a, 1).s # "f32" /\ "batch_norm_non_f32" \in devs THEN Refused
+  \* LayerNormalization leaves stash_type at its default: Mean and InvStdDev are FLOAT whatever the input type
+  ELSE IF o = "aten::native_layer_norm" /\ P(a, 1).s = "f64" /\ "layer_norm_stats_float32" \in devs
+    THEN LET e == Aten(o, a) IN [e EXCEPT !.ts = <<e.ts[1], [e.ts[2] EXCEPT !.dt = "f32"], [e.ts[3] EXCEPT !.dt = "f32"]>>]
   ELSE Aten(o, a)
 
 Low(o, a, devs) ==
